@@ -134,10 +134,13 @@ func (H) Generate(prop, tier string, seed uint64) *simkit.Plan {
 	p.SetKnob("local", int64(r.Pick(4, 1)))
 	npeers := r.Range(1, 4)
 	p.SetKnob("peers", int64(npeers))
-	fp := [][2]int{{-1, -1}, {1, 1}, {1, 2}, {2, 3}, {3, 3}}[r.Intn(5)]
+	fp := [][2]int{{-1, -1}, {1, 1}, {1, 2}, {2, 3}, {3, 3}, {0, 0}}[r.Intn(6)]
 	if fp[0] > npeers {
 		fp = [2]int{-1, -1}
 	}
+	// factors left unset (0/0) mean the cluster's default, here a positive pair:
+	// BlockAllocate resolves it to concrete peers and the pin must name them
+	p.SetKnob("def_rf", int64(1+r.Intn(2)))
 	p.SetKnob("rmin", int64(fp[0]))
 	p.SetKnob("rmax", int64(fp[1]))
 	shard := r.Chance(0.5)
@@ -158,6 +161,22 @@ func (H) Generate(prop, tier string, seed uint64) *simkit.Plan {
 		p.SetKnob("shard_size", 100<<20)
 		p.SetKnob("indirect", 1)
 		t = FileSpec{Name: "big.bin", Size: 16*6100 + 5, Seed: r.Intn(1 << 20)}
+	}
+	if !indirect && (tier == "thorough" && r.Chance(0.05) || r.Chance(0.012)) {
+		// a long sharded add: more than 8192 distinct blocks, with directories made
+		// before and after the bulk of them (every Mkdir adds the same empty-directory
+		// node again: the adder must go on recognising blocks it has sent already)
+		p.SetKnob("chunk", 16)
+		p.SetKnob("rabin", 0)
+		p.SetKnob("shard", 1)
+		p.SetKnob("shard_size", int64([]int{400 * (16 + 64), 100 << 20}[r.Intn(2)]))
+		p.SetKnob("long_add", 1)
+		t = FileSpec{Name: "tree", Dir: true, Children: []FileSpec{
+			{Name: "a", Dir: true, Children: []FileSpec{{Name: "s.bin", Size: 5, Seed: r.Intn(1 << 20)}}},
+			{Name: "big.bin", Size: 16*8300 + 3, Seed: r.Intn(1 << 20)},
+			{Name: "y", Dir: true},
+			{Name: "z", Dir: true, Children: []FileSpec{{Name: "t.bin", Size: 7, Seed: r.Intn(1 << 20)}, {Name: "e", Dir: true}}},
+		}}
 	}
 	st.Tree = &t
 	// faults
@@ -212,7 +231,7 @@ type world struct {
 	failAlloc, failPin int
 	rpcFaults          int // destinations whose link is cut during the add
 	npeers             int
-	rmin, rmax         int
+	rmin, rmax, defRF  int
 }
 
 type clusterSvc struct{ w *world }
@@ -234,6 +253,10 @@ func (s *clusterSvc) BlockAllocate(ctx context.Context, in *api.Pin, out *[]peer
 		}
 	} else {
 		k := in.ReplicationFactorMax
+		if in.ReplicationFactorMin == 0 && in.ReplicationFactorMax == 0 {
+			k = w.defRF // unset: the cluster's default factors
+			w.run.Probe("default_factors_resolved")
+		}
 		if k > w.npeers {
 			k = w.npeers
 		}
@@ -375,7 +398,7 @@ func (H) Execute(t *testing.T, plan *simkit.Plan, run *simkit.Run) {
 	run.Begin()
 	npeers := int(plan.Knob("peers", 2))
 	w := &world{run: run, plan: plan, putN: map[string]int{}, putLog: map[string][]string{}, faults: map[string]string{}, npeers: npeers,
-		rmin: int(plan.Knob("rmin", -1)), rmax: int(plan.Knob("rmax", -1))}
+		rmin: int(plan.Knob("rmin", -1)), rmax: int(plan.Knob("rmax", -1)), defRF: int(plan.Knob("def_rf", 1))}
 	w.net = simkit.NewNet(run, 2*time.Millisecond)
 	var client *rpc.Client
 	for i := 0; i < npeers; i++ {
@@ -669,7 +692,7 @@ func (w *world) judge(params *api.AddParams, tree *FileSpec, root cid.Cid, err e
 			run.Violate("C13/pin_options_differ", "", "root pinned with name=%q rf=%d/%d meta=%v mode=%d; requested name=%q rf=%d/%d", p.Name, p.ReplicationFactorMin, p.ReplicationFactorMax, p.Metadata, p.Mode, params.Name, params.ReplicationFactorMin, params.ReplicationFactorMax)
 		}
 		// (with a negative factor adder.Pin clears the allocations: pinned everywhere)
-		if len(w.allocs) >= 1 && params.ReplicationFactorMin > 0 {
+		if len(w.allocs) >= 1 && params.ReplicationFactorMin >= 0 {
 			if peersKey(p.Allocations) != peersKey(w.allocs[0]) {
 				run.Violate("C13/pin_allocations_differ", "", "blocks were sent to %v but the root is pinned with allocations %v", idx(w.allocs[0]), idx(p.Allocations))
 			}
@@ -735,7 +758,7 @@ func (w *world) judge(params *api.AddParams, tree *FileSpec, root cid.Cid, err e
 		}
 		// the shard is pinned with the allocations its blocks were sent to: one
 		// BlockAllocate answer per shard, in order
-		if si := shardOrder[l.Cid.String()]; si < len(w.allocs) && params.ReplicationFactorMin > 0 {
+		if si := shardOrder[l.Cid.String()]; si < len(w.allocs) && params.ReplicationFactorMin >= 0 {
 			if peersKey(sp.Allocations) != peersKey(w.allocs[si]) {
 				run.Violate("C13/pin_allocations_differ", "shard", "the blocks of shard #%d were sent to %v but the shard is pinned with allocations %v", si, idx(w.allocs[si]), idx(sp.Allocations))
 			}
